@@ -809,6 +809,10 @@ class ContextStateTransaction(_TransactionBase):
                     self._mdib.context_states.set_version(tmp)
             elif adjust_version_counter:
                 tmp.StateVersion = old_state.StateVersion + 1
+            if adjust_version_counter:
+                # the entity might be older than the descriptor in mdib
+                descriptor_container = self._mdib.descriptions.handle.get_one(entity.handle)
+                tmp.DescriptorVersion = descriptor_container.DescriptorVersion
 
             self._state_updates[state_container.Handle] = TransactionItem(old=old_state, new=tmp)
 
